@@ -1,3 +1,5 @@
+import re
+
 from ckl.errors import CklSyntaxError
 from ckl.lexer import Lexer, SourcePos
 
@@ -1040,7 +1042,11 @@ def parse_primary_expr(lexer, unary_minus=False):
         )
         result = invoke(lexer, result)
     elif token.type == "pattern":
-        result = NodeLiteral(ValuePattern(token.value[2:-2]), token.pos)
+        try:
+            patternvalue = ValuePattern(token.value[2:-2])
+        except (re.error, OverflowError, ValueError) as e:
+            raise CklSyntaxError(f"Invalid pattern literal: {e}", token.pos)
+        result = NodeLiteral(patternvalue, token.pos)
         result = invoke(lexer, result)
     else:
         if token.value == "fn" and token.type == "keyword":
